@@ -272,3 +272,27 @@ Example fixed_loop_survives_the_same_calls :
   (exists s, run (init 0 0 1000) [Compute 1000; Handover 1001; Rec 1001; SetMaxEvents 1002 2;
                                    SetWindow 1003 100; Compute 1003; TimerFire 1003] = Some s /\ ph s = Offering).
 Proof. split; eexists; (split; [vm_compute; reflexivity|reflexivity]). Qed.
+
+(** * A burst: all waiters arrive at or after the limiter's creation instant [t0].  The j-th
+      admission (0-based) is not before t0 + (j / n) * w — at most n in the first window, at most
+      2n in the first two, ...  This is the form in which the bound is observed at the CA for
+      first attempts through the ACME issuer (class e2e-throttle). *)
+Theorem burst_lower_bound : forall (n : nat) (w t0 : Z) ls s', (0 < n)%nat -> 0 <= w ->
+  stable ls = true -> run (init n w t0) ls = Some s' ->
+  forall j, (j < length (handovers ls))%nat ->
+    t0 + Z.of_nat (j / n) * w <= nth j (handovers ls) 0.
+Proof.
+  intros n w t0 ls s' Hn Hw Hst Hrun j.
+  induction j as [j IH] using lt_wf_ind. intro Hj.
+  destruct (Nat.lt_ge_cases j n) as [Hlt|Hge].
+  - rewrite Nat.div_small by exact Hlt. cbn. rewrite Z.add_0_r.
+    pose proof (handovers_ge_now true ls (init n w t0) s' Hrun) as G.
+    assert (In (nth j (handovers ls) 0) (handovers ls)) by (apply nth_In; exact Hj).
+    rewrite Forall_forall in G. specialize (G _ H). cbn in G. exact G.
+  - assert (Hdiv : (j / n = (j - n) / n + 1)%nat).
+    { replace j with ((j - n) + 1 * n)%nat at 1 by lia. rewrite Nat.div_add by lia. reflexivity. }
+    rewrite Hdiv.
+    pose proof (at_most_n_per_window n w t0 ls s' Hn Hst Hrun (j - n)%nat j ltac:(lia)) as A.
+    pose proof (IH (j - n)%nat ltac:(lia) ltac:(lia)) as B.
+    rewrite Nat2Z.inj_add. cbn [Z.of_nat Pos.of_succ_nat]. lia.
+Qed.
